@@ -81,6 +81,8 @@ def run(ctx):
     witness(ctx)
     from .. import seghttp
     seghttp.suite(ctx, 'C02')
+    from . import c12
+    c12.time_route_suite(ctx, 5 if ctx.quick() else 40, 6 if ctx.quick() else 40)
 
 
 def replay(ctx, payload):
